@@ -248,6 +248,7 @@ type harness struct {
 	host *host
 	keys *hx.Stream
 	mice *hx.Stream
+	pads *hx.Stream
 }
 
 func (h *harness) pick(n int) int { return h.cfg.Rand.Intn(n) }
@@ -423,6 +424,51 @@ func (h *harness) addEvent(ops []term.VerifC13ModeOp, ev vaxis.Event, tags ...st
 	h.mice.Add(termS, js, nontrivial, tags...)
 }
 
+// addKeypad records what encodeXterm writes for the key under DECKPNM and under
+// DECKPAM (through Model.Update, modes set by ESC > / ESC =).
+func (h *harness) addKeypad(k vaxis.Key, ck bool, tags ...string) {
+	var base []term.VerifC13ModeOp
+	if ck {
+		base = append(base, term.VerifC13ModeOp{Kind: 'h', N: 1})
+	}
+	_, bn := runTerm(append(append([]term.VerifC13ModeOp(nil), base...), term.VerifC13ModeOp{Kind: '>'}), k)
+	_, ba := runTerm(append(append([]term.VerifC13ModeOp(nil), base...), term.VerifC13ModeOp{Kind: '='}), k)
+	rs := []rune{k.Keycode, k.ShiftedCode}
+	rs = append(rs, []rune(k.Text)...)
+	rs = append(rs, []rune(string(bn)+string(ba))...)
+	termS := hx.Tuple(utab(rs), keyTerm(k), hx.Bool(ck), hx.Bytes(bn), hx.Bytes(ba))
+	js := map[string]interface{}{"key": keyJSON(k), "decckm": ck, "written_deckpnm": fmt.Sprintf("%q", bn), "written_deckpam": fmt.Sprintf("%q", ba)}
+	isPad := k.Keycode >= vaxis.KeyKeyPad0 && k.Keycode <= vaxis.KeyKeyPadBegin
+	if isPad && k.Modifiers&(vaxis.ModShift|vaxis.ModAlt|vaxis.ModCtrl) == 0 {
+		js["class"] = "keypad-mode-ignored"
+	}
+	h.pads.Add(termS, js, isPad, tags...)
+}
+
+func (h *harness) genKeypad() {
+	// corpus case of the finding keypad-mode-ignored: keypad 0 as the kitty protocol reports it
+	h.addKeypad(vaxis.Key{Keycode: vaxis.KeyKeyPad0, Text: "0"}, false, "corpus")
+	texts := map[rune]string{vaxis.KeyKeyPad0: "0", vaxis.KeyKeyPad1: "1", vaxis.KeyKeyPad2: "2", vaxis.KeyKeyPad3: "3", vaxis.KeyKeyPad4: "4",
+		vaxis.KeyKeyPad5: "5", vaxis.KeyKeyPad6: "6", vaxis.KeyKeyPad7: "7", vaxis.KeyKeyPad8: "8", vaxis.KeyKeyPad9: "9",
+		vaxis.KeyKeyPadDecimal: ".", vaxis.KeyKeyPadDivide: "/", vaxis.KeyKeyPadMultiply: "*", vaxis.KeyKeyPadSubtract: "-",
+		vaxis.KeyKeyPadAdd: "+", vaxis.KeyKeyPadEqual: "=", vaxis.KeyKeyPadSeparator: ","}
+	for c := vaxis.KeyKeyPad0; c <= vaxis.KeyKeyPadBegin; c++ {
+		for _, ck := range []bool{false, true} {
+			h.addKeypad(vaxis.Key{Keycode: c, Text: texts[c]}, ck, "keypad")
+			h.addKeypad(vaxis.Key{Keycode: c, Modifiers: vaxis.ModNumLock}, ck, "keypad")
+		}
+		h.addKeypad(vaxis.Key{Keycode: c, Text: texts[c], Modifiers: vaxis.ModShift}, false, "keypad-mod")
+	}
+	// keys outside the keypad: the keypad mode must not matter, and the guard does not cover them
+	for _, c := range []rune{vaxis.KeyInsert, vaxis.KeyDelete, vaxis.KeyPgUp, vaxis.KeyPgDown, vaxis.KeyUp, vaxis.KeyHome, vaxis.KeyF01, vaxis.KeyF05, 'a', '0', vaxis.KeyEnter} {
+		k := vaxis.Key{Keycode: c}
+		if c < 0x7f && c >= 0x20 {
+			k.Text = string(c)
+		}
+		h.addKeypad(k, h.pick(2) == 0, "other")
+	}
+}
+
 // ---------- generators ----------
 
 var specialKeys = []rune{vaxis.KeyUp, vaxis.KeyDown, vaxis.KeyRight, vaxis.KeyLeft, vaxis.KeyEnd, vaxis.KeyHome,
@@ -531,6 +577,15 @@ func (h *harness) genKeys() {
 		h.addKey(vaxis.Key{Keycode: c, Text: string(c)}, false, false, "ascii-upper")
 		h.addKey(vaxis.Key{Keycode: unicode.ToLower(c), Text: string(c), Modifiers: vaxis.ModCapsLock}, false, false, "ascii-caps")
 		h.addKey(vaxis.Key{Keycode: unicode.ToLower(c), ShiftedCode: c, Text: string(c), Modifiers: vaxis.ModShift | vaxis.ModNumLock}, false, false, "ascii-lock")
+	}
+	// keys whose text is not their key code: Caps Lock, AltGr, compose, dead keys
+	for _, kc := range []struct {
+		c rune
+		t string
+		m vaxis.ModifierMask
+	}{{'q', "@", 0}, {'e', "€", 0}, {'a', "ä", 0}, {'7', "{", 0}, {'s', "ß", vaxis.ModNumLock}, {'i', "İ", vaxis.ModCapsLock},
+		{'o', "Ö", vaxis.ModCapsLock}, {'2', "\"", vaxis.ModShift}, {'ö', "Ö", vaxis.ModShift | vaxis.ModCapsLock}, {'1', "!", vaxis.ModShift}} {
+		h.addKey(vaxis.Key{Keycode: kc.c, Text: kc.t, Modifiers: kc.m}, false, h.pick(2) == 0, "text-not-code")
 	}
 	// 4. other scripts, sampled
 	scripts := [][2]rune{{0xa1, 0xff}, {0x100, 0x17f}, {0x391, 0x3c9}, {0x410, 0x44f}, {0x5d0, 0x5ea}, {0x3041, 0x3096},
@@ -693,8 +748,12 @@ func main() {
 	h := &harness{cfg: cfg, host: newHost()}
 	h.keys = hx.NewStream("key", "gen.GenKeys model.Keys model.TermMouse model.TermKeys", "key_case", "c13_key_mismatches", "c13_key_violations")
 	h.mice = hx.NewStream("mouse", "gen.GenKeys model.Keys model.TermMouse model.TermKeys", "mouse_case", "c13_mouse_mismatches", "c13_mouse_violations")
+	h.pads = hx.NewStream("keypad", "gen.GenKeys model.Keys model.TermMouse model.TermKeys", "keypad_case", "c13_keypad_mismatches", "c13_keypad_violations")
+	h.pads.Known = "c13_keypad_known"
+	h.pads.KnownClass = "keypad-mode-ignored"
 	h.keys.ShardMax = 250
 	h.mice.ShardMax = 250
+	h.genKeypad()
 	h.genKeys()
 	h.genMouse()
 	ok := hx.WithTimeout(5*time.Second, h.host.vx.Close)
@@ -702,8 +761,9 @@ func main() {
 	cfg.Write("C13", "key stream: every key of xtermKeymap x 8 modifier sets x DECCKM x DECKPAM exhaustively, every named key, printable ASCII x 8 modifier sets exhaustively, "+
 		"Tab/Enter/Esc/Backspace x 8, sampled scripts, multi-code-point texts, random key codes/masks/texts; each is written by Model.Update into a pipe "+
 		"(modes set through the emulator's DECSET/DECRST/ESC = dispatch) and the bytes are read back by a real Vaxis on a fake console. "+
+		"keypad stream: every keypad key (with its kitty text, with Num Lock, with Shift) and some other keys, written under DECKPNM and under DECKPAM; the unmodified keypad keys are the guard of the recorded finding keypad-mode-ignored. "+
 		"mouse stream: 64 mode combinations x 10 buttons x press/release/motion, random buttons/types/positions, paste boundaries with and without 2004; "+
 		"read back by the real Vaxis unless the bytes are a legacy X10 report. non-trivial = key: Shift/Alt/Ctrl held, a special key or a non-default mode; "+
 		"mouse: something was written; distinct by the whole case",
-		[]*hx.Stream{h.keys, h.mice}, extra, h.host.direct)
+		[]*hx.Stream{h.pads, h.keys, h.mice}, extra, h.host.direct)
 }
